@@ -177,8 +177,9 @@ def main(argv=None):
     }
     if getattr(mod, "EXHAUSTIVE_NOTE", None):
         ev["coverage"]["exhaustive_part"] = mod.EXHAUSTIVE_NOTE
-    os.makedirs(os.path.join(HERE, "evidence"), exist_ok=True)
-    with open(os.path.join(HERE, "evidence", f"{prop_id}.json"), "w") as fh:
+    evdir = os.path.join(HERE, "out", "evidence_scratch") if os.environ.get("VERIF_NO_EVIDENCE") else os.path.join(HERE, "evidence")
+    os.makedirs(evdir, exist_ok=True)
+    with open(os.path.join(evdir, f"{prop_id}.json"), "w") as fh:
         json.dump(ev, fh, indent=1, default=repr)
         fh.write("\n")
     print(f"{prop_id} tier={a.tier} seed={seed} evaluations={m['evaluations']} "
